@@ -21,10 +21,10 @@ def corpus():
     return out
 
 
-def ops(s, sub):
+def ops(s, sub, with_re=True):
     """(name, thunk) pairs; every thunk works on str and on SymStr"""
     fmt = S.mod
-    return [
+    out = [
         ('strip', lambda: s.strip()), ('strip|', lambda: s.strip('|')), ('lstrip', lambda: s.lstrip()),
         ('rstrip', lambda: s.rstrip()), ('strip| ', lambda: s.strip('| ')),
         ('split', lambda: s.split()), ('split|', lambda: s.split('|')), ('splitnn', lambda: s.split('\n\n')),
@@ -42,8 +42,13 @@ def ops(s, sub):
         ('mod', lambda: fmt('%-4s|%s|%3s', (s, s, s))), ('mod1', lambda: fmt('<%s>', s)) if '%' not in s else ('mod1', lambda: 0),
         ('fstr', lambda: S.fstr(['[', S.fv(s, -1, '<4'), '|', S.fv(s, -1, '>3'), '|', S.fv(s, 115, ''), '|', S.fv(s, -1, '^5'), ']'])),
         ('format', lambda: S.meth('!{}!!{0}'.replace('{0}', '{}'), 'format', s, s)),
+        ('re1', lambda: bool(S.RE_SHIM.fullmatch(r'[-=+|\s]+', s))), ('re2', lambda: (lambda m: m and (m.span(), m.group(0)))(S.RE_SHIM.search(r'\|\s*(\w+)', s))),
+        ('re3', lambda: bool(S.RE_SHIM.compile(r'^\s*\d+\s*$').match(s))), ('re4', lambda: S.RE_SHIM.split(r'\s*\|\s*', s)),
+        ('re5', lambda: S.RE_SHIM.sub(r'[#!].*', '', s)), ('re6', lambda: (lambda m: m and m.groups())(S.RE_SHIM.match(r'([^|]*)\|(.*)$', s))),
+        ('re7', lambda: S.RE_SHIM.findall(r'[a-zA-Z]+|\d', s)), ('re8', lambda: bool(S.RE_SHIM.search(r'X\b|\.$', s))),
         ('isspace', lambda: s.isspace()), ('hashX', lambda: {'X': 1, '.': 2, '': 3}.get(s, 0)),
     ]
+    return out if with_re else [o for o in out if not o[0].startswith('re')]
 
 
 def norm(v, mdl):
@@ -65,10 +70,12 @@ def attempt(th):
         return ('exc', type(e).__name__)
 
 
-def string_mismatches(limit=None):
+def string_mismatches(part=0, parts=1):
     mism = []
-    strings = corpus()[:limit]
-    for text in strings:
+    strings = corpus()[part::parts]
+    for idx, text in enumerate(strings):
+        with_re = idx % 8 == 0 or idx > len(strings) - 3
+
         def body():
             cx = core.ctx()
             sym = S.SymStr([z3.BitVec(f'ch{k}', S.CW) for k in range(len(text))]) if text else ''
@@ -76,7 +83,7 @@ def string_mismatches(limit=None):
                 cx.assume(c == ord(ch))
             mdl = cx.check_fresh(want_model=True)
             res = []
-            for (name, real), (_, model) in zip(ops(text, text[:1] + 'a'), ops(sym, text[:1] + 'a')):
+            for (name, real), (_, model) in zip(ops(text, text[:1] + 'a', with_re), ops(sym, text[:1] + 'a', with_re)):
                 a = attempt(real)
                 b = attempt(model)
                 b = (b[0], norm(b[1], mdl))
@@ -93,7 +100,7 @@ def string_mismatches(limit=None):
     return mism, len(strings)
 
 
-def stringio_mismatches():
+def stringio_mismatches(part=0, parts=1):
     mism = []
     rnd = random.Random(5)
     pieces = ['a', '\n', '\r', '\r\n', 'b c', '|X|\n', '', 'z\r']
@@ -102,6 +109,8 @@ def stringio_mismatches():
         for trial in range(40):
             seq = [rnd.choice(pieces) for _ in range(rnd.randint(0, 5))]
             init = rnd.choice(['', 'q\nr\r\ns\rt', 'x'])
+            if trial % parts != part:
+                continue
             n += 1
 
             def run(cls, wrap):
@@ -145,10 +154,10 @@ def stringio_mismatches():
     return mism, n
 
 
-def run():
+def run(part=0, parts=1):
     core.set_width(10)
-    m1, n1 = string_mismatches()
-    m2, n2 = stringio_mismatches()
+    m1, n1 = string_mismatches(part, parts)
+    m2, n2 = stringio_mismatches(part, parts)
     return m1 + m2, n1, n2
 
 
